@@ -578,10 +578,11 @@ Section NoSilent.
 End NoSilent.
 
 (* ------------------------------------------------------------------ one invocation, code as it is *)
+(* cfgd d: both halt-flag repairs and the push repair; d says whether start() empties the stack *)
 Definition vm_ok (v : vm) : Prop :=
   running v = false /\ H v <= MaxStack /\ FP v = 0 /\ (startCount v = 0 -> H v = 0).
 
-Lemma vm_ok_new e : vm_ok (fst (new_vm cfg_current e)).
+Lemma vm_ok_new d e : vm_ok (fst (new_vm (cfgd d) e)).
 Proof. cbn. unfold vm_ok. cbn. repeat split; auto. apply Nat.le_0_l. Qed.
 
 Definition env1 (e : env) (c : nat) : env :=
@@ -606,61 +607,60 @@ Qed.
 Definition start_st (e : env) (g : Z) (h f : nat) (i : inv) : st :=
   mkSt g (env1 e (ictx i)) h f (igates i).
 
-Definition body_run (e : env) (i : inv) (s0 : st) : res * st :=
+Definition body_run (d : bool) (e : env) (i : inv) (s0 : st) : res * st :=
   match iapi i with
-  | ACall => call_fn (Some (ncells e)) (ictx i) (eval cfg_current (Some (ncells e)) (ictx i) (ibody i)) s0
-  | _ => eval cfg_current (Some (ncells e)) (ictx i) (ibody i) s0
+  | ACall => call_fn (Some (ncells e)) (ictx i) (eval (cfgd d) (Some (ncells e)) (ictx i) (ibody i)) s0
+  | _ => eval (cfgd d) (Some (ncells e)) (ictx i) (ibody i) s0
   end.
 
-Definition base_h (v : vm) (i : inv) : nat :=
+Definition base_h (d : bool) (v : vm) (i : inv) : nat :=
+  if d then 0 else
   match iapi i with
   | ARunCode => if 1 <? S (startCount v) then 0 else H v
   | _ => H v
   end.
 Definition base_f (v : vm) (i : inv) : nat := match iapi i with ACall => FP v | _ => 0 end.
 
-Lemma run_inv_current_eq e g v i :
+Lemma run_inv_eq d e g v i :
   running v = false ->
-  run_inv cfg_current e g v i =
-  let '(r, s1) := body_run e i (start_st e g (base_h v i) (base_f v i) i) in
+  run_inv (cfgd d) e g v i =
+  let '(r, s1) := body_run d e i (start_st e g (base_h d v i) (base_f v i) i) in
   (outcome_of r, sE s1, sG s1,
    mkVm (Some (ncells e)) (match r with RDiverge => true | _ => false end) (S (startCount v)) (sH s1) (sFP s1)).
 Proof.
   intros R. unfold run_inv, start. rewrite R.
   unfold body_run, start_st, base_h, base_f, env1.
-  destruct (iapi i) eqn:EA; cbn -[eval call_fn Nat.ltb].
-  - destruct (1 <? S (startCount v)); cbn -[eval call_fn];
-      match goal with |- context [eval ?a ?b ?c ?d ?s] => destruct (eval a b c d s) as [r s1] end;
-      destruct r; reflexivity.
-  - match goal with |- context [eval ?a ?b ?c ?d ?s] => destruct (eval a b c d s) as [r s1] end;
-      destruct r; reflexivity.
-  - match goal with |- context [call_fn ?a ?b ?c ?s] => destruct (call_fn a b c s) as [r s1] end;
-      destruct r; reflexivity.
+  destruct d; destruct (iapi i) eqn:EA; cbn -[eval call_fn Nat.ltb];
+    try (destruct (1 <? S (startCount v)); cbn -[eval call_fn]);
+    try (match goal with |- context [eval ?a ?b ?c ?d ?s] => destruct (eval a b c d s) as [r s1] end;
+         destruct r; reflexivity);
+    try (match goal with |- context [call_fn ?a ?b ?c ?s] => destruct (call_fn a b c s) as [r s1] end;
+         destruct r; reflexivity).
 Qed.
 
-Lemma body_run_good e i s0 :
+Lemma body_run_good d e i s0 :
   sH s0 <= MaxStack ->
-  let r := fst (body_run e i s0) in let s1 := snd (body_run e i s0) in
+  let r := fst (body_run d e i s0) in let s1 := snd (body_run d e i s0) in
   sH s1 <= MaxStack /\ (r <> RDiverge -> sFP s1 = sFP s0).
 Proof.
   intros A. unfold body_run. destruct (iapi i).
-  - pose proof (eval_good cfg_current eq_refl (Some (ncells e)) (ictx i) (ibody i) s0 A) as (G1 & G2 & _). auto.
-  - pose proof (eval_good cfg_current eq_refl (Some (ncells e)) (ictx i) (ibody i) s0 A) as (G1 & G2 & _). auto.
+  - pose proof (eval_good (cfgd d) eq_refl (Some (ncells e)) (ictx i) (ibody i) s0 A) as (G1 & G2 & _). auto.
+  - pose proof (eval_good (cfgd d) eq_refl (Some (ncells e)) (ictx i) (ibody i) s0 A) as (G1 & G2 & _). auto.
   - pose proof (call_fn_good (Some (ncells e)) (ictx i) _ s0 A
-                  (eval_good cfg_current eq_refl (Some (ncells e)) (ictx i) (ibody i))) as (G1 & G2 & _). auto.
+                  (eval_good (cfgd d) eq_refl (Some (ncells e)) (ictx i) (ibody i))) as (G1 & G2 & _). auto.
 Qed.
 
-Lemma body_run_nsil e i s0 :
-  run_ok (ncells e) (ictx i) (sE s0) -> nsil (ncells e) (ictx i) (body_run e i s0).
+Lemma body_run_nsil d e i s0 :
+  run_ok (ncells e) (ictx i) (sE s0) -> nsil (ncells e) (ictx i) (body_run d e i s0).
 Proof.
   intros A. unfold body_run. destruct (iapi i).
   - apply eval_nsil; auto. - apply eval_nsil; auto.
   - apply call_fn_nsil; auto. intros t T. apply eval_nsil; auto.
 Qed.
 
-Lemma body_run_shift e i b s1 s2 :
+Lemma body_run_shift d e i b s1 s2 :
   rel b s1 s2 -> sH s1 <= MaxStack ->
-  shifted b (body_run e i s1) (body_run e i s2).
+  shifted b (body_run d e i s1) (body_run d e i s2).
 Proof.
   intros R A. unfold body_run. destruct (iapi i).
   - apply eval_shift; auto. - apply eval_shift; auto.
@@ -669,43 +669,46 @@ Proof.
     + intros t1 t2 R' A'. apply eval_shift; auto.
 Qed.
 
-Definition fresh_of (e : env) (g : Z) (i : inv) : outcome :=
-  let '(o0, _, _, _) := run_inv cfg_current e g (mkVm None false 0 0 0) i in o0.
-Lemma fresh_outcome_of e g v i o : fresh_outcome cfg_current (mkObs e g v i o) = fresh_of e g i.
+Definition fresh_of (d : bool) (e : env) (g : Z) (i : inv) : outcome :=
+  let '(o0, _, _, _) := run_inv (cfgd d) e g (mkVm None false 0 0 0) i in o0.
+Lemma fresh_outcome_of d e g v i o : fresh_outcome (cfgd d) (mkObs e g v i o) = fresh_of d e g i.
 Proof. reflexivity. Qed.
 
 (* what one invocation on a VM in a sane state does, compared with the same invocation on a new VM *)
-Lemma run_inv_current e g v i :
+Lemma run_inv_cfgd d e g v i :
   vm_ok v -> env_ok e ->
-  let '(o, e', g', v') := run_inv cfg_current e g v i in
-  (o = fresh_of e g i \/
-   (o = OErr EStack /\ iapi i <> ARunCode)) /\
+  let '(o, e', g', v') := run_inv (cfgd d) e g v i in
+  (o = fresh_of d e g i \/ (d = false /\ o = OErr EStack /\ iapi i <> ARunCode)) /\
   o <> OStale /\ o <> OBusy /\ env_ok e' /\ (o <> ODiverge -> vm_ok v').
 Proof.
   intros (V1 & V2 & V3 & V4) EO.
-  unfold fresh_of. change (mkVm None false 0 0 0) with (fst (new_vm cfg_current e)).
-  rewrite run_inv_current_eq by auto. rewrite run_inv_current_eq by reflexivity.
-  set (s_sh := start_st e g (base_h v i) (base_f v i) i).
-  set (s_fr := start_st e g (base_h (fst (new_vm cfg_current e)) i) (base_f (fst (new_vm cfg_current e)) i) i).
+  unfold fresh_of. change (mkVm None false 0 0 0) with (fst (new_vm (cfgd d) e)).
+  rewrite run_inv_eq by auto. rewrite run_inv_eq by reflexivity.
+  set (s_sh := start_st e g (base_h d v i) (base_f v i) i).
+  set (s_fr := start_st e g (base_h d (fst (new_vm (cfgd d) e)) i) (base_f (fst (new_vm (cfgd d) e)) i) i).
   assert (Hsh : sH s_sh <= MaxStack).
-  { unfold s_sh, base_h. cbn -[Nat.ltb]. destruct (iapi i); auto. destruct (1 <? S (startCount v)); auto. apply Nat.le_0_l. }
+  { unfold s_sh, base_h. cbn -[Nat.ltb]. destruct d; [apply Nat.le_0_l|].
+    destruct (iapi i); auto. destruct (1 <? S (startCount v)); auto. apply Nat.le_0_l. }
   assert (R : rel (sH s_sh) s_sh s_fr).
   { unfold s_sh, s_fr, start_st, base_f. cbn. repeat split; auto.
     - destruct (iapi i); auto.
-    - unfold base_h. cbn -[Nat.ltb]. destruct (iapi i); cbn -[Nat.ltb]; try reflexivity. }
-  pose proof (body_run_shift e i _ _ _ R Hsh) as SH. unfold shifted in SH.
-  pose proof (body_run_good e i s_sh Hsh) as (G1 & G2).
-  pose proof (body_run_nsil e i s_sh (env1_run_ok e (ictx i) EO)) as (N1 & N2).
-  assert (Hzero : iapi i = ARunCode -> s_sh = s_fr).
-  { intros X. unfold s_sh, s_fr, base_h, base_f. rewrite X. cbn -[Nat.ltb].
-    destruct (startCount v) eqn:SC; cbn; auto. rewrite V4; auto. }
-  destruct (body_run e i s_sh) as [r s1] eqn:E1. destruct (body_run e i s_fr) as [r0 s1'] eqn:E2.
+    - unfold base_h. destruct d; cbn -[Nat.ltb]; [reflexivity|]. destruct (iapi i); cbn -[Nat.ltb]; try reflexivity. }
+  pose proof (body_run_shift d e i _ _ _ R Hsh) as SH. unfold shifted in SH.
+  pose proof (body_run_good d e i s_sh Hsh) as (G1 & G2).
+  pose proof (body_run_nsil d e i s_sh (env1_run_ok e (ictx i) EO)) as (N1 & N2).
+  assert (Hzero : d = true \/ iapi i = ARunCode -> s_sh = s_fr).
+  { intros X. unfold s_sh, s_fr, base_h, base_f. destruct d.
+    - cbn. rewrite V3. destruct (iapi i); reflexivity.
+    - destruct X as [X|X]; [discriminate|]. rewrite X. cbn -[Nat.ltb].
+      destruct (startCount v) eqn:SC; cbn; auto. rewrite V4; auto. }
+  destruct (body_run d e i s_sh) as [r s1] eqn:E1. destruct (body_run d e i s_fr) as [r0 s1'] eqn:E2.
   cbn [fst snd] in *.
   split; [|split; [|split; [|split]]].
-  - destruct (iapi i) eqn:EA.
+  - destruct d; [left; rewrite Hzero in E1 by auto; congruence|].
+    destruct (iapi i) eqn:EA.
     + left. rewrite Hzero in E1 by auto. congruence.
-    + destruct SH as [SH|[SH _]]; [right; subst; split; [reflexivity|discriminate]|left; congruence].
-    + destruct SH as [SH|[SH _]]; [right; subst; split; [reflexivity|discriminate]|left; congruence].
+    + destruct SH as [SH|[SH _]]; [right; subst; repeat split; [discriminate]|left; congruence].
+    + destruct SH as [SH|[SH _]]; [right; subst; repeat split; [discriminate]|left; congruence].
   - destruct r; cbn; congruence.
   - destruct r; cbn; congruence.
   - apply N2.
@@ -718,52 +721,201 @@ Proof.
 Qed.
 
 (* ------------------------------------------------------------------ histories *)
-Lemma exec_current h : forall e g v b,
-  vm_ok v -> env_ok e -> In b (exec cfg_current e g v h) ->
-  (o_out b = fresh_outcome cfg_current b \/ (o_out b = OErr EStack /\ iapi (o_inv b) <> ARunCode)) /\
+Lemma exec_cfgd d h : forall e g v b,
+  vm_ok v -> env_ok e -> In b (exec (cfgd d) e g v h) ->
+  (o_out b = fresh_outcome (cfgd d) b \/ (d = false /\ o_out b = OErr EStack /\ iapi (o_inv b) <> ARunCode)) /\
   o_out b <> OStale /\ o_out b <> OBusy /\ vm_ok (o_vm b) /\ env_ok (o_env b).
 Proof.
   induction h as [|it h IH]; intros e g v b V E I; [destruct I|].
   destruct it as [x|i]; cbn [exec] in I.
   - eapply (IH (do_ev x e) g v b V); [apply do_ev_ok; auto|exact I].
-  - pose proof (run_inv_current e g v i V E) as P.
-    destruct (run_inv cfg_current e g v i) as [[[o e'] g'] v'] eqn:ER.
+  - pose proof (run_inv_cfgd d e g v i V E) as P.
+    destruct (run_inv (cfgd d) e g v i) as [[[o e'] g'] v'] eqn:ER.
     destruct P as (P1 & P2 & P3 & P4 & P5).
     destruct I as [I|I].
     + subst b. rewrite fresh_outcome_of. cbn [o_out o_inv o_vm o_env]. auto.
     + destruct o; try (eapply (IH e' g' v' b); [apply P5; discriminate|exact P4|exact I]). destruct I.
 Qed.
 
+Lemma exec0_cfgd d g h b :
+  In b (exec0 (cfgd d) g h) ->
+  (o_out b = fresh_outcome (cfgd d) b \/ (d = false /\ o_out b = OErr EStack /\ iapi (o_inv b) <> ARunCode)) /\
+  o_out b <> OStale /\ o_out b <> OBusy /\ vm_ok (o_vm b) /\ env_ok (o_env b).
+Proof.
+  intros I. unfold exec0 in I. cbn [new_vm per_run_flag cfgd] in I.
+  eapply exec_cfgd in I; [apply I| apply (vm_ok_new d env0) | apply env_ok_0].
+Qed.
+
+(* the code as it is: every invocation of every history gives what a new VM gives *)
 Theorem independent_current g h b :
-  In b (exec0 cfg_current g h) ->
-  o_out b = fresh_outcome cfg_current b \/ (o_out b = OErr EStack /\ iapi (o_inv b) <> ARunCode).
+  In b (exec0 cfg_current g h) -> o_out b = fresh_outcome cfg_current b.
 Proof.
-  intros I. unfold exec0 in I. cbn [new_vm per_run_flag cfg_current] in I.
-  eapply exec_current in I; [apply I| apply (vm_ok_new env0) | apply env_ok_0].
-Qed.
-
-Theorem runcode_independent g h b :
-  In b (exec0 cfg_current g h) -> iapi (o_inv b) = ARunCode -> o_out b = fresh_outcome cfg_current b.
-Proof.
-  intros I A. destruct (independent_current g h b I) as [X|[_ X]]; auto. congruence.
-Qed.
-
-Theorem guarded_independent g h b :
-  In b (exec0 cfg_current g h) -> o_out b <> OErr EStack -> o_out b = fresh_outcome cfg_current b.
-Proof.
-  intros I A. destruct (independent_current g h b I) as [X|[X _]]; auto. congruence.
+  intros I. destruct (exec0_cfgd true g h b I) as ([X|[X _]] & _); [exact X|discriminate].
 Qed.
 
 Theorem no_silent_halt g h b : In b (exec0 cfg_current g h) -> o_out b <> OStale /\ o_out b <> OBusy.
-Proof.
-  intros I. unfold exec0 in I. cbn [new_vm per_run_flag cfg_current] in I.
-  eapply exec_current in I; [|apply (vm_ok_new env0) | apply env_ok_0]. split; apply I.
-Qed.
+Proof. intros I. destruct (exec0_cfgd true g h b I) as (_ & A & B & _). auto. Qed.
 
 (* the state every invocation starts from: not running, frame 0, stack within bounds -
    resumeFrame / resetForNewCode / stop() have put (running, fp, sp) back, whatever happened before *)
 Theorem restored_between_runs g h b : In b (exec0 cfg_current g h) -> vm_ok (o_vm b).
+Proof. intros I. destruct (exec0_cfgd true g h b I) as (_ & _ & _ & A & _). auto. Qed.
+
+(* before c13bc4b (start() kept the stack): independent, or the stack is exhausted (Call / Run only) *)
+Theorem independent_nodrop g h b :
+  In b (exec0 cfg_nodrop g h) ->
+  o_out b = fresh_outcome cfg_nodrop b \/ (o_out b = OErr EStack /\ iapi (o_inv b) <> ARunCode).
 Proof.
-  intros I. unfold exec0 in I. cbn [new_vm per_run_flag cfg_current] in I.
-  eapply exec_current in I; [|apply (vm_ok_new env0) | apply env_ok_0]. apply I.
+  intros I. destruct (exec0_cfgd false g h b I) as ([X|(_ & X)] & _); auto.
 Qed.
+
+(* ------------------------------------------------------------------ a static guard: enough room *)
+Section HMax.
+  Variable cfg : config.
+  Hypothesis Hguard : push_guard cfg = true.
+  Variable hc : option nat.
+  Variable cx : nat.
+  Notation ev := (eval cfg hc cx).
+
+  (* no stack panic, and (unless it never returns) the height ends at most m above where it started *)
+  Definition fits (m : nat) (s : st) (p : res * st) : Prop :=
+    fst p <> RP EStack /\ fst p <> RE EStack /\ (fst p <> RDiverge -> sH (snd p) <= sH s + m).
+
+  Lemma halt_res_not_stack s : halt_res cx s <> RP EStack /\ halt_res cx s <> RE EStack.
+  Proof. unfold halt_res. destruct (is_cancelled _ _); split; discriminate. Qed.
+
+  Lemma fits_halt m s0 s : sH s <= sH s0 + m -> fits m s0 (halt_res cx s, s).
+  Proof. intros L. destruct (halt_res_not_stack s). repeat split; cbn; auto. Qed.
+
+  Lemma fits_push m z s0 s :
+    sH s < MaxStack -> sH s + 1 <= sH s0 + m -> fits m s0 (push_val cfg z s).
+  Proof.
+    intros A B. destruct (push_val_cases cfg Hguard z s) as [[L E]|[L E]]; [|lia].
+    rewrite E. repeat split; cbn; try discriminate. lia.
+  Qed.
+
+  Lemma fits_other m s0 r s :
+    r <> RP EStack -> r <> RE EStack -> (forall z, r <> RV z) -> sH s <= sH s0 + m -> fits m s0 (r, s).
+  Proof. intros. repeat split; cbn; auto. Qed.
+
+  Lemma call_fn_fits m (body : st -> res * st) s :
+    sH s + m <= MaxStack -> 1 <= m ->
+    (forall t, sH t <= MaxStack -> good t (fst (body t)) (snd (body t))) ->
+    (forall t, sH t + m <= MaxStack -> fits m t (body t)) ->
+    fits 1 s (call_fn hc cx body s).
+  Proof.
+    intros A M G IH.
+    unfold call_fn.
+    destruct (MaxFrames <=? S (sFP s)) eqn:EF.
+    - pose proof (resume_ok (sH s) (sFP s) (setHF s (sH s) (S (sFP s))) ltac:(cbn; lia) (le_n _)) as R.
+      destruct (resume (sH s) (sFP s) (setHF s (sH s) (S (sFP s)))) as [p t]. cbn in R.
+      destruct R as (R1 & R2 & R3 & R4 & R5). subst p. repeat split; cbn; try discriminate. intros _. lia.
+    - specialize (IH (setHF s (sH s) (S (sFP s))) A).
+      specialize (G (setHF s (sH s) (S (sFP s))) ltac:(cbn; lia)).
+      destruct (body (setHF s (sH s) (S (sFP s)))) as [r s1]. destruct IH as (I1 & I2 & I3). cbn in I1, I2, I3.
+      destruct G as (G1 & G2 & G3 & G4). cbn in G1, G3.
+      pose proof (resume_ok (sH s) (sFP s) s1 G1 G3) as R.
+      destruct (resume (sH s) (sFP s) s1) as [p s2]. cbn in R.
+      destruct R as (R1 & R2 & R3 & R4 & R5). subst p.
+      destruct r.
+      + destruct (polled hc s1); cbn.
+        * destruct (halt_res_not_stack s1). repeat split; cbn; auto. intros _; lia.
+        * repeat split; cbn; try discriminate. intros _; lia.
+      + repeat split; cbn; try discriminate; try congruence. intros _; lia.
+      + repeat split; cbn; try discriminate; try congruence. intros _; lia.
+      + repeat split; cbn; try discriminate; try congruence. intros _; lia.
+      + repeat split; cbn; try discriminate; try congruence.
+  Qed.
+
+  Lemma spin_not_stack gs : forall s, fst (spin hc cx gs s) <> RE EStack.
+  Proof.
+    induction gs as [|xs gs IH]; intros t; cbn.
+    - destruct (polled hc t); cbn; [apply halt_res_not_stack|discriminate].
+    - destruct (polled hc t); cbn; [apply halt_res_not_stack|apply IH].
+  Qed.
+
+  Lemma spin_fits gs s : fits 0 s (spin hc cx gs s).
+  Proof.
+    pose proof (spin_not_stack gs s) as N.
+    destruct (spin hc cx gs s) as [r s'] eqn:E. apply spin_shape in E.
+    destruct E as (E1 & E2 & E3 & E4). repeat split; cbn; auto. intros _. lia.
+  Qed.
+
+  Ltac other I3 :=
+    apply fits_other;
+    [ auto; try discriminate | auto; try discriminate | intros; discriminate
+    | specialize (I3 ltac:(discriminate)); lia ].
+
+  Lemma hmax_pos e : 1 <= hmax e.
+  Proof. induction e; cbn [hmax]; lia. Qed.
+
+  Lemma eval_fits e : forall s, sH s + hmax e <= MaxStack -> fits (hmax e) s (ev e s).
+  Proof.
+    induction e; intros s A; cbn [eval hmax] in *; unfold poll_then;
+      try (pose proof (hmax_pos e1) as P1; pose proof (hmax_pos e2) as P2); try pose proof (hmax_pos e) as P0.
+    - destruct (polled hc s); [apply fits_halt; lia|apply fits_push; lia].
+    - destruct (polled hc s); [apply fits_halt; lia|apply fits_push; lia].
+    - destruct (polled hc s); [apply fits_halt; lia|apply fits_push; cbn; lia].
+    - (* Bin *)
+      pose proof (eval_good cfg Hguard hc cx e1 s ltac:(lia)) as G1.
+      specialize (IHe1 s ltac:(lia)). destruct (ev e1 s) as [r1 s1]. cbn [fst snd] in *.
+      destruct IHe1 as (I1 & I2 & I3); cbn [fst snd] in I1, I2, I3. destruct G1 as (G11 & G12 & G13 & G14).
+      destruct r1; try (other I3; fail).
+      2:{ repeat split; cbn; auto; try discriminate. intros X; congruence. }
+      specialize (G14 _ eq_refl). specialize (I3 ltac:(discriminate)).
+      pose proof (eval_good cfg Hguard hc cx e2 s1 ltac:(lia)) as G2.
+      specialize (IHe2 s1 ltac:(lia)). destruct (ev e2 s1) as [r2 s2]. cbn [fst snd] in *.
+      destruct IHe2 as (J1 & J2 & J3); cbn [fst snd] in J1, J2, J3. destruct G2 as (G21 & G22 & G23 & G24).
+      destruct r2; try (other J3; fail).
+      2:{ repeat split; cbn; auto; try discriminate. intros X; congruence. }
+      specialize (G24 _ eq_refl).
+      destruct (polled hc s2); [apply fits_halt; lia|].
+      rewrite (pop1_some s2) by lia. rewrite (pop1_some (setH s2 _)) by (cbn; lia).
+      apply fits_push; rewrite ?sH_setH; try lia; cbn; lia.
+    - (* Seq *)
+      pose proof (eval_good cfg Hguard hc cx e1 s ltac:(lia)) as G1.
+      specialize (IHe1 s ltac:(lia)). destruct (ev e1 s) as [r1 s1]. cbn [fst snd] in *.
+      destruct IHe1 as (I1 & I2 & I3); cbn [fst snd] in I1, I2, I3. destruct G1 as (G11 & G12 & G13 & G14).
+      destruct r1; try (other I3; fail).
+      2:{ repeat split; cbn; auto; try discriminate. intros X; congruence. }
+      specialize (G14 _ eq_refl).
+      destruct (polled hc s1); [apply fits_halt; lia|].
+      rewrite (pop1_some s1) by lia.
+      specialize (IHe2 (setH s1 (pred (sH s1))) ltac:(cbn; lia)).
+      destruct (ev e2 (setH s1 (pred (sH s1)))) as [r2 s2]. destruct IHe2 as (J1 & J2 & J3). cbn in J1, J2, J3.
+      repeat split; cbn; auto. intros X. specialize (J3 X). lia.
+    - (* ListN *)
+      destruct (polled hc s); [apply fits_halt; lia|].
+      assert (E : (sH s + n <=? MaxStack) = true) by (apply Nat.leb_le; lia). rewrite E.
+      pose proof (eval_good cfg Hguard hc cx e (setH s (sH s + n)) ltac:(cbn; lia)) as G1.
+      specialize (IHe (setH s (sH s + n)) ltac:(cbn; lia)).
+      destruct (ev e (setH s (sH s + n))) as [r1 s1]. cbn [fst snd] in *.
+      destruct IHe as (I1 & I2 & I3); cbn [fst snd] in I1, I2, I3. destruct G1 as (G11 & G12 & G13 & G14). rewrite sH_setH in *.
+      destruct r1; try (other I3; fail).
+      2:{ repeat split; cbn; auto; try discriminate. intros X; congruence. }
+      specialize (G14 _ eq_refl).
+      destruct (polled hc s1); [apply fits_halt; lia|].
+      apply fits_push; rewrite ?sH_setH; try lia; cbn; lia.
+    - (* CallE *)
+      destruct (polled hc s); [apply fits_halt; lia|].
+      pose proof (call_fn_fits (Nat.max 1 (hmax e)) (ev e) s ltac:(lia) ltac:(lia)
+                    (eval_good cfg Hguard hc cx e)) as C.
+      assert (IH' : forall t, sH t + Nat.max 1 (hmax e) <= MaxStack -> fits (Nat.max 1 (hmax e)) t (ev e t)).
+      { intros t T. specialize (IHe t ltac:(lia)). destruct IHe as (X1 & X2 & X3). repeat split; auto.
+        intros D. specialize (X3 D). lia. }
+      specialize (C IH').
+      pose proof (call_fn_good hc cx (ev e) s ltac:(lia) (eval_good cfg Hguard hc cx e)) as K. cbn in K.
+      destruct (call_fn hc cx (ev e) s) as [r s1]. cbn [fst snd] in *.
+      destruct C as (C1 & C2 & C3); cbn [fst snd] in C1, C2, C3. destruct K as (K1 & K2 & K3 & K4 & K5).
+      destruct r; try (other C3; fail).
+      2:{ repeat split; cbn; auto; try discriminate. intros X; congruence. }
+      specialize (K4 _ eq_refl). apply fits_push; lia.
+    - destruct (polled hc s); [apply fits_halt; lia|]. apply fits_other; try (intros; discriminate); lia.
+    - destruct (polled hc s); [apply fits_halt; lia|]. apply fits_other; try (intros; discriminate); lia.
+    - destruct (polled hc s); [apply fits_halt; lia|].
+      assert (T : sH (take_gate s) = sH s) by (unfold take_gate; destruct (sGates s); reflexivity).
+      apply fits_push; lia.
+    - pose proof (spin_fits (sGates s) s) as (X1 & X2 & X3). repeat split; auto. intros D. specialize (X3 D). lia.
+  Qed.
+End HMax.
+
